@@ -116,6 +116,12 @@ CORPUS = [
     {"op": "factorize", "g": _fig2a(), "e": []},
     {"op": "factorize", "g": _fig1(), "e": [[V(1, [[0, "m"]]), val(1)]]},
     {"op": "simplify_factorize", "g": _fig1(), "e": [[V(1, [[0, "m"]]), val(1)], [V(2, [[0, "m"]]), val(2)]]},
+    # --- minimal inputs of the open findings (kept so that a future repair is noticed: KNOWN-FINDING lines disappear)
+    {"op": "simplify", "g": {"nodes": [1], "di": [], "bi": []}, "e": [[V(1, [[1, "m"]]), val(1)]], "seed": 1},
+    {"op": "simplify", "g": {"nodes": [1], "di": [], "bi": []}, "e": [[V(1, [[1, "m"]]), val(1)], [V(1), val(1, "p")]], "seed": 1},
+    {"op": "factorize", "g": {"nodes": [], "di": [[0, 1]], "bi": []}, "e": [[V(1), val(1)], [V(1, [[0, "m"]]), val(1, "p")]], "seed": 2},
+    {"op": "factorize", "g": {"nodes": [], "di": [[0, 1], [0, 2]], "bi": []}, "e": [[V(1, [[0, "m"]]), val(1)], [V(2), val(2)]], "seed": 1},
+    {"op": "factorize", "g": {"nodes": [], "di": [[0, 1]], "bi": []}, "e": [[V(1), val(1)], [V(0), val(0, "p")]], "seed": 2},
     # --- Example 4.5-like ancestral components (Figure 2a)
     {"op": "ancestral_components", "g": _fig2a(), "cond": [V(X_)], "roots": [V(Y_, [[X_, "m"]]), V(X_)]},
     {"op": "ancestral_components", "g": _fig2a(), "cond": [V(Z_), V(X_, [[Z_, "m"]])], "roots": [V(Y_, [[X_, "m"]]), V(Z_), V(X_, [[Z_, "m"]])]},
